@@ -111,11 +111,16 @@ int main(int argc, char **argv)
 	int have_gfni = (host.ecx7 & C7C_GFNI) && (host.ebx7 & C7B_AVX2);
 	if (!have_gfni)
 		v_note("host lacks GFNI: the GFNI matrices are checked against the software model of GF2P8AFFINEQB only");
-	static const int grid[][2] = { { 1, 1 }, { 1, 256 }, { 256, 1 }, { 16, 16 }, { 3, 85 }, { 85, 3 }, { 10, 4 }, { 255, 255 } };
+	/* grid = (k, rows, coefficient content): content 0 = all 256 values in turn; 1 = a wide local-parity row (zeros, from column 256 on
+	 * ones); 2 = four distinct values repeating everywhere; 3 = one constant. k beyond 256 is legal (k is an int) even though no
+	 * MDS code needs it: an implementation may not key anything on the column index fitting a byte. */
+	static const int grid[][3] = { { 1, 1, 0 }, { 1, 256, 0 }, { 256, 1, 0 }, { 16, 16, 0 }, { 3, 85, 0 }, { 85, 3, 0 }, { 10, 4, 0 }, { 255, 255, 0 },
+				       { 300, 2, 1 }, { 300, 2, 2 }, { 258, 3, 0 }, { 520, 1, 2 }, { 1024, 2, 1 }, { 255, 3, 2 }, { 64, 5, 3 }, { 700, 3, 0 } };
 	for (unsigned g = 0; g < sizeof grid / sizeof grid[0]; g++) {
 		if (!v_mine(g))
 			continue;
-		int k = grid[g][0], rows = grid[g][1];
+		int k = grid[g][0], rows = grid[g][1], content = grid[g][2];
+#define COEF(i) (uint8_t)(content == 0 ? (i) * 7 + g * 13 + ((i) >> 8) : content == 1 ? ((i) % k < 256 ? 0 : 1 + ((i) / k)) : content == 2 ? 0x1d * ((((i) % k) * ((i) % k) >> 3) & 3) : 0x8e)
 		size_t n = (size_t)k * rows;
 		uint8_t *a = malloc(n), *t = g_alloc(n * 32, G_END), *t8 = g_alloc(n * 8, G_END);
 		/* the same grid with the table block at odd addresses (ec_init_tables_base and the dispatched builder) */
@@ -123,7 +128,7 @@ int main(int argc, char **argv)
 			for (int off = 1; off < 16; off += 2) {
 				uint8_t *tu = g_alloc_off(n * 32, off);
 				for (size_t i = 0; i < n; i++)
-					a[i] = (uint8_t)(i * 7 + g * 13 + (i >> 8));
+					a[i] = COEF(i);
 				for (int which = 0; which < 2; which++) {
 					memset(tu, 0xEE, n * 32);
 					cpu_set_level(CPU_AVX2);
@@ -147,7 +152,7 @@ int main(int argc, char **argv)
 					v_violation("ec_init_tables overrun (unaligned table)", "%s k=%d rows=%d", g_last_damage(), k, rows);
 			}
 		for (size_t i = 0; i < n; i++)
-			a[i] = (uint8_t)(i * 7 + g * 13 + (i >> 8));
+			a[i] = COEF(i);
 		for (int lvl = -1; lvl < CPU_NLEVELS; lvl++) {
 			memset(t, 0xEE, n * 32);
 			int is_gfni = 0;
